@@ -839,3 +839,43 @@ def pinned_calendar_ctor(prog: Program, incr_fn: FunctionInfo, cal_class: str, v
     if len(direct) == 1:
         return incr_fn, direct[0], vinfo_var
     return None
+
+
+# --------------------------------------------------------------------------- click options
+CLI_OPTION_DEFAULTS: T.Dict[str, T.Tuple[T.Any, T.Optional[bool]]] = {
+    # option name -> (default, is_flag)   None for is_flag: not a plain flag (value option / on-off pair)
+    "--dry": (False, True), "--allow-dirty": (False, True), "--ignore-vcs-tag": (False, True), "--fetch/--no-fetch": (True, True),
+    "--major": (False, True), "--minor": (False, True), "--patch": (False, True), "--tag-num": (False, True), "--pin-increments": (False, True),
+    "--pin-date": (False, True), "--tag": (None, None), "--date": (None, None), "--set-version": (None, None),
+    "--commit/--no-commit": (None, None), "--tag-commit/--no-tag-commit": (None, None), "--push/--no-push": (None, None),
+    "--commit-message": (None, None), "--tag-message": (None, None), "--tag-scope": (None, None),
+}
+
+
+def cli_option_rule(ctx: T.Any, rule: str, names: T.Iterable[str]) -> None:
+    """The named command-line options are declared with their documented defaults: a flag that is not given is off (an
+    unset value option is None, so the configuration decides), `--fetch` is on."""
+    prog = ctx.prog
+    mod = prog.module("cli")
+    decls: T.Dict[str, ast.Call] = {}
+    for n in ast.walk(mod.tree):
+        if isinstance(n, ast.Call) and unparse(n.func) == "click.option":
+            for a in n.args:
+                s_ = const_str(a)
+                if s_ and s_.startswith("--"):
+                    decls[s_] = n
+    for name in names:
+        want_default, want_flag = CLI_OPTION_DEFAULTS[name]
+        c = decls.get(name)
+        if c is None:
+            ctx.require(False, f"cli: option {name} is not declared with click.option")
+        kws = kwargs_of(c)
+        d = kws.get("default")
+        d_ok = (d is None and want_default is None) or (isinstance(d, ast.Constant) and d.value is want_default) or (d is None and want_default is False and want_flag)
+        ctx.check(rule, d_ok, f"cli: option {name} defaults to {want_default!r}", f"cli: option {name} does not default to {want_default!r}",
+                  f"`default={unparse(d) if d is not None else None}`: the option takes effect although it was not given on the command line", loc=f"{mod.relpath}:{c.lineno}",
+                  witness={"option": name, "default": unparse(d) if d is not None else None})
+        if want_flag:
+            f_ = kws.get("is_flag")
+            ctx.check(rule, isinstance(f_, ast.Constant) and f_.value is True, f"cli: option {name} is a flag", f"cli: option {name} is not a flag (it consumes the next argument)",
+                      f"`is_flag={unparse(f_) if f_ is not None else None}`", loc=f"{mod.relpath}:{c.lineno}")
